@@ -1,4 +1,4 @@
-import QP.Proofs.C18Ops
+import QP.Proofs.C18Rec
 /-!
 Property theorems for C18 (the hardware setup routes every program to exactly the right devices).
 
@@ -386,5 +386,123 @@ example : ∃ s', run (init [(2, 1)] 1)
       (aget 7 g.progs).map (·.chs) = some [none, some 0]) :=
   ⟨_, rfl, _, rfl, by decide, by decide⟩
 
+
+/-! ### the record invariant: no assumption on the wiring, re-wiring included
+
+`RecInv`: whatever a device holds is a registered program whose record lists that device.  It is preserved
+by **every** operation — also by `set_channel` / `set_measurement` / `rm_channel` on names that registered
+programs use — so after *any* history `remove_program` and `clear_programs` reach every holder: a removed or
+cleared program is gone from every device of the bench, wired or not.  (`step` is the code with
+`fixes/PF-19.diff` and `fixes/PF-C18a.diff`; the unrepaired `clear_programs` only clears the devices that are
+still wired, `pfc18a_counterexample`.) -/
+
+theorem recInvB_iff (s : State) : recInvB s = true ↔ RecInv s := recInvB_iff' s
+
+theorem judgeRec_ok_iff_rec (s : State) : judgeRec s = "ok" ↔ RecInv s :=
+  (judgeRec_ok_iff s).trans (recInvB_iff' s)
+
+theorem inv_implies_rec {s : State} (hI : Inv s) : RecInv s := recInv_of_inv hI
+
+theorem rec_init (cfg : List (Nat × Nat)) (ndacs : Nat) : RecInv (init cfg ndacs) :=
+  recInv_of_inv (inv_init cfg ndacs)
+
+/-- every operation that returns normally preserves the record invariant — no side condition -/
+theorem rec_step {s s' : State} {op : Op} (hI : RecInv s) (h : step s op = .ok s') : RecInv s' :=
+  rec_step' hI h
+
+theorem rec_run {ops : List Op} : ∀ {s s' : State}, RecInv s → run s ops = .ok s' → RecInv s' := by
+  induction ops with
+  | nil =>
+    intro s s' hI h
+    simp only [run, runWith] at h
+    injection h with h; subst h; exact hI
+  | cons op ops ih =>
+    intro s s' hI h
+    simp only [run, runWith] at h
+    cases hs : stepWith true s op with
+    | error e => rw [hs] at h; cases h
+    | ok s1 =>
+      rw [hs] at h
+      exact ih (rec_step hI hs) h
+
+/-- after every finite history of normally returning calls, re-wiring included -/
+theorem rec_history (cfg : List (Nat × Nat)) (ndacs : Nat) (ops : List Op) (s' : State)
+    (h : run (init cfg ndacs) ops = .ok s') : RecInv s' :=
+  rec_run (rec_init cfg ndacs) h
+
+/-- the same with raising calls interleaved -/
+theorem rec_history_skip (ops : List Op) : ∀ (s : State), RecInv s → RecInv (ops.foldl stepSkip s) := by
+  induction ops with
+  | nil => intro s hI; exact hI
+  | cons op ops ih =>
+    intro s hI
+    simp only [List.foldl_cons]
+    apply ih
+    unfold stepSkip
+    cases hs : step s op with
+    | error e => exact hI
+    | ok s1 => exact rec_step hI hs
+
+/-- a removed program is gone from every device, whatever happened to the wiring since its registration -/
+theorem remove_gone_any {s : State} (n : Name) (hI : RecInv s) : Gone (remove s n) n := by
+  have hI' := rec_remove n hI
+  have hreg : aget n (remove s n).registered = none := by
+    unfold remove
+    cases hr : aget n s.registered with
+    | none => simpa using hr
+    | some r => exact aget_adel_self _ _
+  refine ⟨hreg, ?_, ?_⟩
+  · intro g hg
+    obtain ⟨a, _, ha⟩ := List.getElem_of_mem hg
+    have hg' : (remove s n).awgs[a]? = some g := by rw [← ha]; exact List.getElem?_eq_getElem _
+    cases hu : aget n g.progs with
+    | none => rfl
+    | some u =>
+      obtain ⟨r, hr, _⟩ := hI'.awgRec a g hg' n u hu
+      rw [hreg] at hr; cases hr
+  · intro g hg
+    obtain ⟨d, _, hd⟩ := List.getElem_of_mem hg
+    have hg' : (remove s n).dacs[d]? = some g := by rw [← hd]; exact List.getElem?_eq_getElem _
+    cases hw : aget n g.progs with
+    | none => rfl
+    | some w =>
+      obtain ⟨r, hr, _⟩ := hI'.dacRec d g hg' n w hw
+      rw [hreg] at hr; cases hr
+
+/-- after clearing, every program is gone from every device, wired or not -/
+theorem clear_gone_any {s : State} (hI : RecInv s) (n : Name) : Gone (clear s) n := by
+  obtain ⟨h1, h2⟩ := clear_empty hI
+  refine ⟨rfl, ?_, ?_⟩
+  · intro g hg
+    obtain ⟨a, _, ha⟩ := List.getElem_of_mem hg
+    exact h1 a g (by rw [← ha]; exact List.getElem?_eq_getElem _) n
+  · intro g hg
+    obtain ⟨d, _, hd⟩ := List.getElem_of_mem hg
+    exact h2 d g (by rw [← hd]; exact List.getElem?_eq_getElem _) n
+
+/-- "a removed or cleared program is gone everywhere" after any history, without the `Admissible` side
+condition -/
+theorem gone_after_any_history (cfg : List (Nat × Nat)) (ndacs : Nat) (ops : List Op) (s' : State)
+    (h : run (init cfg ndacs) ops = .ok s') (n : Name) : Gone (remove s' n) n ∧ Gone (clear s') n :=
+  ⟨remove_gone_any n (rec_history cfg ndacs ops s' h), clear_gone_any (rec_history cfg ndacs ops s' h) n⟩
+
+/-! ### PF-C18a: the unrepaired `clear_programs` forgets a device that dropped out of the wiring -/
+
+/-- channel 0 on the first generator, a program registered on it, channel 0 re-wired to the second
+generator, then `clear_programs` -/
+def pfc18aOps : List Op :=
+  [.setChannel 0 [.out ⟨0, .playback, 0, 0⟩] false,
+   .register 0 ⟨0, [0], []⟩ true false none,
+   .setChannel 0 [.out ⟨1, .playback, 0, 0⟩] false,
+   .clear]
+
+theorem pfc18a_counterexample :
+    ∃ s', runWith false (init [(1, 0), (1, 0)] 0) pfc18aOps = .ok s' ∧ ¬ Gone s' 0 ∧ ¬ RecInv s' := by
+  refine ⟨_, rfl, by decide, ?_⟩
+  rw [← recInvB_iff]; decide
+
+/-- the repaired code on the same history -/
+example : ∃ s', run (init [(1, 0), (1, 0)] 0) pfc18aOps = .ok s' ∧ Gone s' 0 ∧ recInvB s' = true :=
+  ⟨_, rfl, by decide, by decide⟩
 
 end QP.Props.C18
